@@ -288,16 +288,16 @@ func mapAttributeValueToTypes(attrs map[string]*dynamodb.AttributeValue) map[str
 		}
 
 		mapItems[key] = &types.Item{
-			B:    attr.B,
-			BOOL: attr.BOOL,
-			BS:   attr.BS,
+			B:    copyBytes(attr.B),
+			BOOL: copyBool(attr.BOOL),
+			BS:   copyByteSlices(attr.BS),
 			L:    mapAttributeValueListToTypes(attr.L),
 			M:    mapAttributeValueToTypes(attr.M),
-			N:    attr.N,
-			NS:   attr.NS,
-			NULL: attr.NULL,
-			S:    attr.S,
-			SS:   attr.SS,
+			N:    copyString(attr.N),
+			NS:   copyStrings(attr.NS),
+			NULL: copyBool(attr.NULL),
+			S:    copyString(attr.S),
+			SS:   copyStrings(attr.SS),
 		}
 	}
 
@@ -317,16 +317,16 @@ func mapAttributeValueListToTypes(attrs []*dynamodb.AttributeValue) []*types.Ite
 		}
 
 		mapItems[i] = &types.Item{
-			B:    attr.B,
-			BOOL: attr.BOOL,
-			BS:   attr.BS,
+			B:    copyBytes(attr.B),
+			BOOL: copyBool(attr.BOOL),
+			BS:   copyByteSlices(attr.BS),
 			L:    mapAttributeValueListToTypes(attr.L),
 			M:    mapAttributeValueToTypes(attr.M),
-			N:    attr.N,
-			NS:   attr.NS,
-			NULL: attr.NULL,
-			S:    attr.S,
-			SS:   attr.SS,
+			N:    copyString(attr.N),
+			NS:   copyStrings(attr.NS),
+			NULL: copyBool(attr.NULL),
+			S:    copyString(attr.S),
+			SS:   copyStrings(attr.SS),
 		}
 	}
 
@@ -342,16 +342,16 @@ func mapAttributeValueToDynamodb(attrs map[string]*types.Item) map[string]*dynam
 
 	for key, attr := range attrs {
 		mapItems[key] = &dynamodb.AttributeValue{
-			B:    attr.B,
-			BOOL: attr.BOOL,
-			BS:   attr.BS,
+			B:    copyBytes(attr.B),
+			BOOL: copyBool(attr.BOOL),
+			BS:   copyByteSlices(attr.BS),
 			L:    mapAttributeValueListToDynamodb(attr.L),
 			M:    mapAttributeValueToDynamodb(attr.M),
-			N:    attr.N,
-			NS:   attr.NS,
-			NULL: attr.NULL,
-			S:    attr.S,
-			SS:   attr.SS,
+			N:    copyString(attr.N),
+			NS:   copyStrings(attr.NS),
+			NULL: copyBool(attr.NULL),
+			S:    copyString(attr.S),
+			SS:   copyStrings(attr.SS),
 		}
 	}
 
@@ -377,18 +377,75 @@ func mapAttributeValueListToDynamodb(attrs []*types.Item) []*dynamodb.AttributeV
 
 	for i, attr := range attrs {
 		mapItems[i] = &dynamodb.AttributeValue{
-			B:    attr.B,
-			BOOL: attr.BOOL,
-			BS:   attr.BS,
+			B:    copyBytes(attr.B),
+			BOOL: copyBool(attr.BOOL),
+			BS:   copyByteSlices(attr.BS),
 			L:    mapAttributeValueListToDynamodb(attr.L),
 			M:    mapAttributeValueToDynamodb(attr.M),
-			N:    attr.N,
-			NS:   attr.NS,
-			NULL: attr.NULL,
-			S:    attr.S,
-			SS:   attr.SS,
+			N:    copyString(attr.N),
+			NS:   copyStrings(attr.NS),
+			NULL: copyBool(attr.NULL),
+			S:    copyString(attr.S),
+			SS:   copyStrings(attr.SS),
 		}
 	}
 
 	return mapItems
+}
+
+// The helpers below copy the memory behind attribute values, so that the stored state never
+// shares mutable memory with the structures the caller passed in or received.
+
+func copyBytes(b []byte) []byte {
+	if b == nil {
+		return nil
+	}
+
+	return append([]byte{}, b...)
+}
+
+func copyByteSlices(bs [][]byte) [][]byte {
+	if bs == nil {
+		return nil
+	}
+
+	out := make([][]byte, len(bs))
+	for i, b := range bs {
+		out[i] = copyBytes(b)
+	}
+
+	return out
+}
+
+func copyString(s *string) *string {
+	if s == nil {
+		return nil
+	}
+
+	c := *s
+
+	return &c
+}
+
+func copyStrings(ss []*string) []*string {
+	if ss == nil {
+		return nil
+	}
+
+	out := make([]*string, len(ss))
+	for i, s := range ss {
+		out[i] = copyString(s)
+	}
+
+	return out
+}
+
+func copyBool(b *bool) *bool {
+	if b == nil {
+		return nil
+	}
+
+	c := *b
+
+	return &c
 }
